@@ -1,6 +1,8 @@
 package props
 
 import (
+	"github.com/wrgl/wrgl/pkg/diff"
+	"github.com/wrgl/wrgl/pkg/progress"
 	"bytes"
 	"encoding/json"
 	"fmt"
@@ -70,6 +72,58 @@ func withWatchdog(d time.Duration, f func()) (finished bool, dump string) {
 		n := runtime.Stack(buf, true)
 		return false, string(buf[:n])
 	}
+}
+
+// runDiffTracked drains DiffTables the way the diff and merge commands do: a select over the progress tracker's events
+// and the diff channel, then the tear-down (bars are finished, a moment passes) and tracker.Stop(). The progress interval
+// is one millisecond so that ticks do arrive, also between the end of the loop and Stop.
+func runDiffTracked(db objects.Store, sum1, sum2 []byte, joined bool) (events []diffEvent, err error, stuck bool, ticks int) {
+	t1, err := objects.GetTable(db, sum1)
+	if err != nil {
+		return nil, err, false, 0
+	}
+	t2, err := objects.GetTable(db, sum2)
+	if err != nil {
+		return nil, err, false, 0
+	}
+	idx1, err := objects.GetTableIndex(db, sum1)
+	if err != nil {
+		return nil, err, false, 0
+	}
+	idx2, err := objects.GetTableIndex(db, sum2)
+	if err != nil {
+		return nil, err, false, 0
+	}
+	errChan := make(chan error, 10)
+	ch, pt := diff.DiffTables(db, db, t1, t2, idx1, idx2, errChan, logr.Discard(), diff.WithProgressInterval(time.Millisecond))
+	var tracker progress.Tracker = pt
+	if joined {
+		tracker = progress.JoinTrackers(pt)
+	}
+	progChan := tracker.Start()
+	timeout := time.After(120 * time.Second)
+loop:
+	for {
+		select {
+		case <-progChan:
+			ticks++
+		case d, ok := <-ch:
+			if !ok {
+				break loop
+			}
+			events = append(events, diffEvent{PK: string(d.PK), Sum: string(d.Sum), OldSum: string(d.OldSum), Offset: d.Offset, OldOffset: d.OldOffset})
+		case <-timeout:
+			return events, nil, true, ticks
+		}
+	}
+	time.Sleep(5 * time.Millisecond) // tear-down of the bars: ticks keep arriving and nobody reads them any more
+	tracker.Stop()
+	select {
+	case e := <-errChan:
+		return events, e, false, ticks
+	default:
+	}
+	return events, nil, false, ticks
 }
 
 func parkedInWrgl(dump string) bool {
@@ -267,9 +321,11 @@ func c16Run(c *fw.Case, env *fw.Env) *fw.Obs {
 		var ev []diffEvent
 		var derr error
 		var stuck bool
-		finished, dump := withWatchdog(150*time.Second, func() { ev, derr, stuck = runDiff(db, db, s1, s2) })
+		var ticks int
+		finished, dump := withWatchdog(150*time.Second, func() { ev, derr, stuck, ticks = runDiffTracked(db, s1, s2, c.Seed%2 == 0) })
 		o.Ev("oracle_evaluations", 1)
 		o.Ev("runs_diff", 1)
+		o.Ev("progress_ticks_consumed", int64(ticks))
 		if !finished || stuck {
 			if parkedInWrgl(dump) || stuck {
 				o.Violate("deadlock/diff", "diff did not finish\n%s", tailStr(dump, 4000))
